@@ -413,6 +413,8 @@ def run(ctx, rep):
                       "TensorEncoder vs TensorDecoder; save_full_state records carry id and a non-parameter type")
     rep.rule('C17.F', "what a reader hands to a nested load_state_dict derives from the saved state only, never from the current object's own state_dict()")
     rep.rule('C17.S', "a reader restores into the objects the constructor injected (parameters, models, integrators, adaptors); it never re-binds such an attribute")
+    rep.rule('C17.P', "the checkpoint of an iteration is written after every state change of that iteration")
+    rep.rule('C17.R', "a helper rebuilt through its constructor in a reader receives each saved value in a parameter the constructor stores unchanged")
     rep.rule('C17.J', "state of a torch optimiser (integer keys) is not passed through JSON and back into load_state_dict without re-keying")
     rep.assumptions += [
         "torch.optim.Optimizer.state_dict()['state'] is keyed by integers; JSON object keys are strings",
@@ -431,6 +433,130 @@ def run(ctx, rep):
     check_main_accumulates(ctx, rep)
     check_reader_discipline(ctx, rep, concrete)
     check_foreign(ctx, rep, concrete)
+    check_checkpoint_position(ctx, rep)
+    check_constructor_restores(ctx, rep, concrete)
+    check_main_order(ctx, rep)
+
+
+# ---------------------------------------------------------------------------
+MUTATOR_METHODS = {'step', 'tune', 'accept', 'reject', 'learn', 'fire_parameter_changed', 'rsample', 'sample', 'restart', 'zero_grad', 'backward'}
+
+
+def _calls_save(ctx, cls, call, depth=0) -> bool:
+    if isinstance(call.func, ast.Attribute) and call.func.attr == 'save_full_state':
+        return True
+    a = self_attr(call.func) if isinstance(call.func, ast.Attribute) else None
+    if a and depth < 2:
+        r = cls.resolve(a)
+        if r is not None:
+            return any(isinstance(c, ast.Call) and _calls_save(ctx, r[0], c, depth + 1) for c in ast.walk(r[1]))
+    return False
+
+
+def check_checkpoint_position(ctx, rep):
+    """C17.P — the checkpoint of an iteration is written after everything that changes run state in that iteration (only the iteration counter may follow)"""
+    n = 0
+    for qual, names in (('torchtree.optim.optimizer.Optimizer', ('_run', '_run_closure')), ('torchtree.inference.mcmc.mcmc.MCMC', ('run',))):
+        cls = ctx.classes.get(qual)
+        if cls is None:
+            raise AnalysisError(f"{qual} not found")
+        for name in names:
+            r = cls.resolve(name)
+            if r is None:
+                continue
+            fn = r[1]
+            for loop in [x for x in ast.walk(fn) if isinstance(x, (ast.While, ast.For))]:
+                body = loop.body
+                idx = [i for i, st in enumerate(body) if any(isinstance(c, ast.Call) and _calls_save(ctx, cls, c) for c in ast.walk(st))]
+                if not idx:
+                    continue
+                n += 1
+                after = body[idx[-1] + 1:]
+                offenders = []
+                for st in after:
+                    for c in ast.walk(st):
+                        if isinstance(c, ast.Call) and isinstance(c.func, ast.Attribute) and c.func.attr in MUTATOR_METHODS:
+                            offenders.append(norm_text(c)[:50])
+                # the closure of LBFGS is defined before the step: nested defs are not "after"
+                rep.check('C17.P', f"{cls.name}.{name}::checkpoint-after-every-state-change-of-the-iteration", not offenders, where(cls.module, body[idx[-1]]),
+                          {'after_the_checkpoint': [norm_text(st)[:50] for st in after], 'state_changes_after': offenders},
+                          f"{cls.name}.{name} writes the checkpoint and then still runs {offenders[:3]} in the same iteration: the file pairs post-step parameters with "
+                          f"pre-step state of those objects, so the resumed run diverges from the uninterrupted one")
+    if n < 3:
+        raise AnalysisError(f"only {n} run loops with a checkpoint found")
+
+
+def check_constructor_restores(ctx, rep, classes):
+    """C17.R — a reader that rebuilds a helper through its constructor hands each saved value to a parameter that the constructor stores unchanged in the
+    attribute the writer saved it from"""
+    n = 0
+    for cls in classes:
+        for rname in ('load_state_dict', '_load_state_dict'):
+            r = cls.resolve(rname)
+            if r is None:
+                continue
+            fn = r[1]
+            sd = fn.args.args[1].arg if len(fn.args.args) > 1 else None
+            for st in ast.walk(fn):
+                if not (isinstance(st, ast.Assign) and len(st.targets) == 1 and self_attr(st.targets[0]) and isinstance(st.value, ast.Call)):
+                    continue
+                call = st.value
+                tcls = ctx.classes.resolve_class_expr(cls.module, call.func)
+                if tcls is None:
+                    continue
+                init = tcls.resolve('__init__')
+                if init is None:
+                    continue
+                params = [a.arg for a in init[1].args.args][1:]
+                for i, a in enumerate(call.args):
+                    keys = [x.slice.value for x in ast.walk(a) if isinstance(x, ast.Subscript) and isinstance(x.value, ast.Name) and x.value.id == sd
+                            and isinstance(x.slice, ast.Constant)]
+                    if len(keys) != 1 or i >= len(params):
+                        continue
+                    n += 1
+                    p_ = params[i]
+                    # what the constructor does with that parameter
+                    stores = [s2 for s2 in ast.walk(init[1]) if isinstance(s2, ast.Assign) and any(self_attr(t) for t in s2.targets) and isinstance(s2.value, ast.Name) and s2.value.id == p_]
+                    attrs = [self_attr(t) for s2 in stores for t in s2.targets if self_attr(t)]
+                    modified = []
+                    for s2 in ast.walk(init[1]):
+                        if isinstance(s2, ast.AugAssign) and (self_attr(s2.target) in attrs or (isinstance(s2.target, ast.Name) and s2.target.id == p_)):
+                            modified.append(norm_text(s2)[:50])
+                        if isinstance(s2, ast.Assign) and any(self_attr(t) in attrs for t in s2.targets) and not (isinstance(s2.value, ast.Name) and s2.value.id == p_):
+                            modified.append(norm_text(s2)[:50])
+                    ok = bool(attrs) and not modified
+                    rep.check('C17.R', f"{cls.qualname}.{rname}::{keys[0]}->{tcls.name}({p_})", ok, where(cls.module, st), {'stored_in': attrs, 'modified_by_constructor': modified},
+                              f"{cls.name}.{rname} rebuilds self.{self_attr(st.targets[0])} with {tcls.name}(…, {p_}=state['{keys[0]}'], …), but {tcls.name}.__init__ does not keep that "
+                              f"argument as it is ({modified[:2] or 'not stored'}): the restored accumulator differs from the saved one")
+    rep.analysed['constructor_restores'] = n
+
+
+def check_main_order(ctx, rep):
+    """C17.E — saved tensors are injected into the specification *after* comments were removed and plates expanded (ids inside plate templates are not final before)"""
+    from sa.cfg import CFG
+    m = ctx.prog.module('torchtree.torchtree')
+    fn = m.functions.get('main')
+    if fn is None:
+        raise AnalysisError('torchtree.main not found')
+    cfg = CFG(fn)
+
+    def nodes_calling(name):
+        out = []
+        for n in cfg.stmt_nodes():
+            st = n.stmt
+            if n.kind == 'with_exit' or st is None:
+                continue
+            from sa.cfg import own_nodes
+            if any(isinstance(c, ast.Call) and (dotted_name(c.func) or '').split('.')[-1] == name for c in own_nodes(st)):
+                out.append(n)
+        return out
+    upd, exp, rem = nodes_calling('update_parameters'), nodes_calling('expand_plates'), nodes_calling('remove_comments')
+    if not upd or not exp:
+        raise Unsupported(fn, 'update_parameters / expand_plates not found in main()')
+    ok = all(cfg.dominates(exp[0], u) for u in upd) and (not rem or all(cfg.dominates(rem[0], u) for u in upd))
+    rep.check('C17.E', 'main::plates-expanded-before-saved-tensors-are-injected', ok, where(m, upd[0].stmt), None,
+              "main() calls update_parameters before expand_plates / remove_comments: parameters declared inside a plate still carry their template ids, so the saved "
+              "tensors are not found and the run restarts those parameters from their initial values")
 
 
 def top_writer(cls):
@@ -713,21 +839,75 @@ def check_encoders(ctx, rep):
     up = um.functions.get('update_parameters')
     if up is None:
         raise AnalysisError('update_parameters not found')
-    acc = None
     kept = None
     for n in ast.walk(up):
-        if isinstance(n, ast.Compare) and isinstance(n.ops[0], ast.In) and isinstance(n.comparators[0], (ast.Tuple, ast.List)) \
-                and isinstance(n.left, ast.Subscript) and isinstance(n.left.slice, ast.Constant) and n.left.slice.value == 'type':
-            acc = {e.value for e in n.comparators[0].elts if isinstance(e, ast.Constant)}
         if isinstance(n, ast.Compare) and isinstance(n.ops[0], ast.NotIn) and isinstance(n.comparators[0], (ast.Tuple, ast.List)):
             kept = {e.value for e in n.comparators[0].elts if isinstance(e, ast.Constant)}
-    if acc is None or kept is None:
-        raise AnalysisError('update_parameters: tag / kept-key tables not found')
-    # tags of Parameter objects in model specifications that update_parameters must recognise: the
-    # registered short name and its dotted paths
-    rep.check('C17.E', 'update_parameters::spec-tags', {'Parameter', 'torchtree.Parameter', 'torchtree.core.parameter.Parameter'} <= acc,
+    # the test that decides "this dict is a plain Parameter: replace its value, do not descend": evaluated for every way a type can be spelled
+    type_tests = [n.test for n in ast.walk(up) if isinstance(n, ast.If) and any(isinstance(x, ast.Subscript) and isinstance(x.slice, ast.Constant) and x.slice.value == 'type'
+                                                                               for x in ast.walk(n.test))]
+    if not type_tests or kept is None:
+        raise AnalysisError('update_parameters: type test / kept-key table not found')
+
+    def is_type_expr(x):
+        return isinstance(x, ast.Subscript) and isinstance(x.slice, ast.Constant) and x.slice.value == 'type'
+
+    def ev(t, sval):
+        if isinstance(t, ast.BoolOp):
+            vals = [ev(v, sval) for v in t.values]
+            if any(v is None for v in vals):
+                return None
+            return all(vals) if isinstance(t.op, ast.And) else any(vals)
+        if isinstance(t, ast.UnaryOp) and isinstance(t.op, ast.Not):
+            v = ev(t.operand, sval)
+            return None if v is None else not v
+        if isinstance(t, ast.Compare) and len(t.ops) == 1:
+            l, r_, op = t.left, t.comparators[0], t.ops[0]
+            if isinstance(l, ast.Constant) and l.value == 'type' and isinstance(op, ast.In):
+                return True          # 'type' in json_object
+            def val(x):
+                if is_type_expr(x):
+                    return sval
+                if isinstance(x, ast.Constant):
+                    return x.value
+                if isinstance(x, (ast.Tuple, ast.List)) and all(isinstance(e, ast.Constant) for e in x.elts):
+                    return tuple(e.value for e in x.elts)
+                if isinstance(x, ast.Subscript) and isinstance(x.value, ast.Call) and isinstance(x.value.func, ast.Attribute) and x.value.func.attr in ('split', 'rsplit') \
+                        and is_type_expr(x.value.func.value) and x.value.args and isinstance(x.value.args[0], ast.Constant) and isinstance(x.slice, ast.UnaryOp):
+                    return sval.split(x.value.args[0].value)[-1]
+                return None
+            a, b = val(l), val(r_)
+            if a is None or b is None:
+                return None
+            if isinstance(op, ast.In):
+                return a in b
+            if isinstance(op, ast.NotIn):
+                return a not in b
+            if isinstance(op, ast.Eq):
+                return a == b
+            if isinstance(op, ast.NotEq):
+                return a != b
+        if isinstance(t, ast.Call) and isinstance(t.func, ast.Attribute) and t.func.attr in ('endswith', 'startswith') and is_type_expr(t.func.value) and t.args \
+                and isinstance(t.args[0], ast.Constant):
+            return getattr(sval, t.func.attr)(t.args[0].value)
+        return None
+    leaf_spellings = ['Parameter', 'torchtree.Parameter', 'torchtree.core.parameter.Parameter']
+    containers = []
+    for c in ctx.classes.subclasses('torchtree.core.abstractparameter.AbstractParameter'):
+        if c.name != 'Parameter':
+            containers += [c.name, f"torchtree.{c.name}", c.qualname]
+    res_leaf = {sp: ev(type_tests[0], sp) for sp in leaf_spellings}
+    res_cont = {sp: ev(type_tests[0], sp) for sp in containers}
+    if any(v is None for v in list(res_leaf.values()) + list(res_cont.values())):
+        raise AnalysisError('update_parameters: type test not understood')
+    acc = {sp for sp, v in res_leaf.items() if v}
+    rep.check('C17.E', 'update_parameters::spec-tags', set(leaf_spellings) <= acc,
               where(um, up), {'accepts': sorted(acc)},
               "update_parameters does not recognise every way a Parameter can be typed in a specification")
+    wrong = sorted(sp for sp, v in res_cont.items() if v)
+    rep.check('C17.E', 'update_parameters::descends-into-derived-parameters', not wrong, where(um, up), {'treated_as_leaves': wrong[:6]},
+              f"update_parameters treats {wrong[:3]} as plain parameters: it neither finds them in the checkpoint nor descends into them, so a parameter declared inline "
+              f"inside a transformed / view / concatenated parameter restarts from its initial value")
     # copied fields
     copied = set()
     for n in ast.walk(up):
